@@ -115,6 +115,11 @@ func randCase(r *Rand, s string) string {
 }
 
 func c13Run(c *Ctx) {
+	if c.Sub("api?").Intn(8) == 3 {
+		// options registered through the public AddOption API: entry vs. flag on two identical parsers
+		apiMiniIniVsFlag(c)
+		return
+	}
 	r := c.R
 	d := GenDecl(c.Sub("d"), c13Cfg())
 	if inHistTail(c, 32000, 1000000) {
